@@ -18,7 +18,6 @@ def jobs(tier):
 META = {
     "trusted_base": D.DFS_TRUSTED,
     "assumptions": [],
-    "outside": ["name lookup -> mount -> body (body_command, StorageConfiguration::mount, Catalog::find_catalog_entry_for_name: std::map, unique_ptr, find_if)",
-                "renderings type/list/dump (lambdas over std::ostream) -- see C01 section of DESIGN.md for what is covered"],
-    "explanation": "field lemmas for all 2^64 metadata values; last_sector; sector walk of visit_file_body_piecewise by loop contract with a read/visit monitor; Volume::Access::read_block",
+    "outside": ["name lookup -> mount -> body plumbing (body_command, StorageConfiguration::mount, std::find_if over the entries: std::map, unique_ptr); the entry match itself (CatalogEntry::has_name) is under contract in C15"],
+    "explanation": "field lemmas for all 2^64 metadata values; last_sector; sector walk of visit_file_body_piecewise by loop contract with a read/visit monitor; Volume::Access::read_block; the type / list body lambdas and hexdump_bytes against their output monitors",
 }
